@@ -148,6 +148,11 @@ def run(ctx):
         ctx.alt_prop = None
     # no cross-configuration diff for these families: several of their operations only promise a relation (log2 bounds,
     # Bezout pairs, tie choices), so two builds may legitimately differ; each build is decided by the definition monitor
+    # serialization, algorithm layer: the binary visitors and serializers round-trip, are injective, and decode EVERY byte
+    # string (over boundary byte values) to a canonical value
+    cfg = fw.write_cfg(ctx.path("MC_SerdeAlg.cfg"), invariants=["RoundTrip", "AnyStreamCanonical"],
+                       constants={"MaxV": ctx.pick(70000, 300000), "MaxLen": ctx.pick(4, 6), "ByteVals": "{0, 1, 127, 128, 255}"})
+    ctx.mc("mc-serdealg", "C19", "SerdeAlg.tla", cfg, required_actions=["PickValue", "AddByte"])
     # serialization
     traces = []
     ns = ctx.pick(240, 2400)
